@@ -573,8 +573,16 @@ type RouteSpec struct {
 // groupable returns how many leading segments of the pattern can be moved into group prefixes.
 func (p *Pattern) groupable() int {
 	k := 0
-	for k < len(p.Segs)-1 && k < 2 && p.Segs[k].Var == nil && strings.TrimSpace(p.Segs[k].Pre) != "" && !strings.ContainsAny(p.Segs[k].Pre, "[]{}*") {
-		k++
+	for k < len(p.Segs)-1 && k < 2 {
+		sg := p.Segs[k]
+		txt := sg.String()
+		if strings.TrimSpace(txt) != txt || txt == "" || strings.ContainsAny(sg.Pre+sg.Suf, "[]{}*") {
+			break
+		}
+		if sg.Var != nil && strings.ContainsAny(sg.Var.Class.Re, " /") {
+			break
+		}
+		k++ // literal segments and segments with a variable alike: a group prefix may contain variables
 	}
 	return k
 }
@@ -587,18 +595,18 @@ func (rs *RouteSpec) Register(r *rux.Router, h rux.HandlerFunc) (route *rux.Rout
 	rest := &Pattern{Segs: rs.Pat.Segs[rs.Grp:], Opts: rs.Pat.Opts}
 	add := func() { route = r.AddNamed(rs.Name, rest.String(), h, rs.Methods...) }
 	if rs.Grp == 1 {
-		pre := "/" + rs.Pat.Segs[0].Pre
+		pre := segsString(rs.Pat.Segs[:1])
 		if rs.GrpRel {
-			pre = rs.Pat.Segs[0].Pre
+			pre = pre[1:]
 		}
 		r.Group(pre, add)
 		return
 	}
-	inner := "/" + rs.Pat.Segs[1].Pre
+	inner := segsString(rs.Pat.Segs[1:2])
 	if rs.GrpRel {
-		inner = rs.Pat.Segs[1].Pre
+		inner = inner[1:]
 	}
-	r.Group("/"+rs.Pat.Segs[0].Pre, func() { r.Group(inner, add) })
+	r.Group(segsString(rs.Pat.Segs[:1]), func() { r.Group(inner, add) })
 	return
 }
 
@@ -638,7 +646,7 @@ func (tb *Table) Describe() any {
 	for _, r := range tb.Routes {
 		m := map[string]any{"name": r.Name, "path": r.Pat.String(), "methods": strings.Join(r.Methods, ",")}
 		if r.Grp > 0 {
-			m["registered_inside_nested_groups"] = r.Grp
+			m["registered_inside_nested_groups(prefixes = leading segments, literal or variable)"] = r.Grp
 			m["inner_prefix_without_leading_slash"] = r.GrpRel
 		}
 		out = append(out, m)
